@@ -272,6 +272,36 @@ def run(ctx: Ctx) -> None:
             second.setdefault(ln, []).append(decode(ln))
         except Exception as err:  # noqa: BLE001
             second.setdefault(ln, []).append(("EXC", type(err).__name__))
+    # ... and once more with the WALL CLOCK somewhere else (7 h 13 min 5 s on, a different day for some): a payload is a function of the packet --
+    # its text and its own timestamp -- not of when it happens to be decoded
+    import sys  # noqa: PLC0415
+    shifted = {}
+    mods = [m for name, m in list(sys.modules.items()) if name.startswith(("ramses_tx", "ramses_rf")) and isinstance(getattr(m, "dt", None), type) and issubclass(m.dt, _dt.datetime)]
+    saved_dt = [(m, m.dt) for m in mods]
+
+    def shifted_clock(base):
+        class Shifted(base):
+            @classmethod
+            def now(cls, tz=None):
+                return base.now(tz) + _dt.timedelta(hours=7 + 24 * 40, minutes=13, seconds=5)
+        return Shifted
+
+    try:
+        for m, base in saved_dt:
+            m.dt = shifted_clock(base)
+        for ln in decodable:
+            try:
+                shifted[ln] = decode(ln)
+            except Exception as err:  # noqa: BLE001
+                shifted[ln] = ("EXC", type(err).__name__)
+    finally:
+        for m, base in saved_dt:
+            m.dt = base
+    for ln in decodable:
+        a, b = json.dumps(first[ln], sort_keys=True, default=str), json.dumps(shifted[ln], sort_keys=True, default=str)
+        if a != b:
+            ctx.violation(f"decode-depends-on-the-clock:{ln.split()[6]}", f"{ln} decoded to {a[:200]}, and with the wall clock 40 days 7 h 13 min 5 s on to {b[:200]}",
+                          {"line": ln, "first": a, "with_the_clock_moved": b}, "history")
     for ln in lines:
         code = ln.split()[6]
         p = first[ln]
